@@ -13,7 +13,7 @@
        outcome: ok none | ok count n | ok rows c,c | r r r | ok names s.n ... | ok schemas s ... | ok val i z | ok val b 0|1
                 | err exists|notfound|invalid|other
    storage:
-     (selfinsert segsz cap nrows p (order ...))  a table of nrows rows loaded by one partition in batches of cap
+     (selfinsert segsz cap nrows p (order ...) [fuel])  a table of nrows rows loaded by one partition in batches of cap
                                                  rows, then INSERT INTO t SELECT * FROM t with p partitions, each
                                                  partition run to completion in the given order
                                                  -> total <rows in table> count <sum of rows_inserted> | stuck
@@ -117,7 +117,8 @@ let storage () =
        let line = input_line stdin in
        if String.trim line <> "" then begin
          match items (parse_sexp line) with
-         | [A "selfinsert"; segsz; cap; nrows; p; order] ->
+         | A "selfinsert" :: segsz :: cap :: nrows :: p :: order :: rest ->
+           let fuel = (match rest with [f] -> int_of_string (atom f) | _ -> 100000) in
            let capi = int_of_string (atom cap) in
            let k = { segsz = nat_of_int (int_of_string (atom segsz)); cap = nat_of_int capi } in
            let load = batches B.one capi (int_of_string (atom nrows)) [] @ [LFinalize O] in
@@ -126,8 +127,8 @@ let storage () =
             | Some c0 ->
               let pn = nat_of_int (int_of_string (atom p)) in
               let ord = List.map (fun x -> nat_of_int (int_of_string (atom x))) (items order) in
-              (match run_order k (nat_of_int 100000) (self_insert c0.segs pn) ord with
-               | None -> print_endline "stuck"
+              (match run_order k (nat_of_int fuel) (self_insert c0.segs pn) ord with
+               | None -> print_endline (Printf.sprintf "unfinished after %d scan calls of one partition" fuel)
                | Some c ->
                  print_endline (Printf.sprintf "total %s count %d complete %b segments %d"
                                   (string_of_n (total_rows c)) (int_of_nat (insert_count c)) (complete c)
